@@ -203,7 +203,7 @@ def gen_predict(rng, tier):
     if rng.random() < .5:
         rows.append(list(rows[0]))     # duplicate row: predict works on distinct rows and merges back
     case["rows"] = rows
-    case["n_jobs"] = rng.choice([1, 1, 2])
+    case["n_jobs"] = rng.choice([1, 1, 1, 2])
     return case
 
 
